@@ -121,6 +121,23 @@ def lossy_only(d):
     return in_fragment(d)
 
 
+def nonstring_map_keys(d, acc=None):
+    """kinds of Map key fields whose serialized keys are not strings (json.dumps turns them into strings)"""
+    acc = set() if acc is None else acc
+    if isinstance(d, dict):
+        if d.get("k") == "mapOf":
+            kk = d["key"]["k"]
+            if kk in ("integer", "float", "number", "boolean", "noneF", "anyOf") or \
+                    (kk == "enumLit" and not all(isinstance(v, str) for v in d["key"]["values"])):
+                acc.add(kk)
+        for x in d.values():
+            nonstring_map_keys(x, acc)
+    elif isinstance(d, list):
+        for x in d:
+            nonstring_map_keys(x, acc)
+    return acc
+
+
 def has_extras(kw, cls):
     names = {n for n, _ in cls["fields"]}
     return any(k not in names for k, _ in kw)
@@ -467,6 +484,16 @@ def run_impl(case):
             except Exception as e:
                 res["ser"] = {"err": C.err_name(e), "msg": str(e)[:200]}
                 return res
+            # the same through JSON TEXT (what a consumer on the other side of a wire sees)
+            try:
+                text = json.dumps(Serializer(x).serialize())
+                try:
+                    yt = Deserializer(cls).deserialize(json.loads(text), keep_undefined=ku)
+                    res["text_back"] = {"ok": bool(x == yt)}
+                except Exception as e:
+                    res["text_back"] = {"err": C.err_name(e), "msg": str(e)[:200]}
+            except Exception:
+                pass
             try:
                 doc2 = Serializer(x).serialize()
                 y = Deserializer(cls).deserialize(doc2, keep_undefined=ku)
@@ -682,18 +709,33 @@ def offpath_inline(d, on_path=True):
     return False
 
 
+def _eq_and_typed_keys(x):
+    """(key under Python ==, key that also tells the JSON types apart) of a wire document value"""
+    if x is None or isinstance(x, str):
+        return ("v", x), ("v", x)
+    if isinstance(x, bool):
+        return ("n", gen.norm_key(x)), ("bool", x)
+    if isinstance(x, int):
+        return ("n", gen.norm_key(x)), ("int", x)
+    if gen.is_wire_float(x):
+        return ("n", gen.norm_key(x)), ("float", json.dumps(x, sort_keys=True))
+    if isinstance(x, dict) and "l" in x:
+        ks = [_eq_and_typed_keys(y) for y in x["l"]]
+        return ("l", tuple(k[0] for k in ks)), ("l", tuple(k[1] for k in ks))
+    return ("o", json.dumps(x, sort_keys=True)), ("o", json.dumps(x, sort_keys=True))
+
+
 def crosstype_duplicates(doc):
-    """an array holding values that are == but of different JSON type (true / 1 / 1.0): as a Python set
-    they collapse before the constructor can see them, so 'the set this array denotes' is ambiguous"""
+    """an array holding values that are == but of different JSON type (true / 1 / 1.0, also inside nested arrays:
+    [3, 0] / [3, false]): as a Python set they collapse before the constructor can see them, so 'the set this
+    array denotes' is ambiguous"""
     if isinstance(doc, dict):
         if "l" in doc:
             keys = {}
             for x in doc["l"]:
-                if x is None or isinstance(x, (bool, int)) or gen.is_wire_float(x):
-                    k = gen.norm_key(x)
-                    t = "bool" if isinstance(x, bool) else "int" if isinstance(x, int) else "float"
-                    if keys.setdefault(k, t) != t:
-                        return True
+                ek, tk = _eq_and_typed_keys(x)
+                if keys.setdefault(ek, tk) != tk:
+                    return True
             return any(crosstype_duplicates(x) for x in doc["l"])
         if "m" in doc:
             return any(crosstype_duplicates(v) for _, v in doc["m"])
